@@ -85,6 +85,19 @@ def cases(tier, seed):
         add(''.join(rng.choice(SYMS) + rng.choice(['', '', ' ']) for _ in range(rng.randint(1, 9))), ('soup',))
     for i in range(1000 if tier == 'quick' else 60000):
         add(bytes(rng.randrange(256) for _ in range(rng.randint(1, 12))), ('random-bytes',))
+    # errors raised while the tree is being optimised (literal path steps, group of a group, ...) in EVERY position of every
+    # container, with well-formed members before and after: the error of any member is the error of the whole
+    bad = ['x.1', '"a".b', 'true.z', 'null.q', 'a{"k":1}{"j":2}', 'x.1.y', '$f(x."s".t)', 'a.2[0]', '(1).b' , 'y."lit"']
+    good = ['a', '2', '"s"', '$v', 'b.c']
+    frames = ['[%s]', '[G, %s]', '[%s, G]', '[G, %s, G]', '{"a": %s}', '{"a": %s, "b": G}', '{"a": G, "b": %s}', '{"a": G, "b": %s, "c": G}', '{%s: 1, "b": G}', '(%s)', '(G; %s)', '(%s; G)', '$f(%s)', '$f(G, %s)', '$f(%s, G)',
+              'function($p){%s}', 'G ? %s : G', '%s ? G : G', 'G ? G : %s', 'G[%s]', 'G^(%s)', 'G^(G, %s)', 'G^(%s, G)', 'G{"k": %s}', 'G{"k": G, "j": %s}', 'G{"k": %s, "j": G}', '$ ~> |%s|{"z": 1}|', '$ ~> |G|{"z": %s}|',
+              '$ ~> |G|{"z": 1}, [%s]|', '$x := %s', 'G + %s', '%s + G', '-%s', '[G..%s]', '%s ~> $f', 'G ~> $f(%s)', '$f(?, %s)', 'G & %s & G', 'G and %s', '%s in G', '[[%s], G]', '{"a": {"b": %s, "c": G}}', 'G.(%s)', 'G.{"k": %s, "j": G}']
+    for fr in frames:
+        for b in (bad if tier != 'quick' else rng.sample(bad, 4)):
+            t = fr
+            while 'G' in t:
+                t = t.replace('G', rng.choice(good), 1)
+            add(t % b, ('optimize-error',))
     # focused: string escapes, numbers, regex, back-quoted names, signatures
     esc = ['\\"', '\\\\', '\\/', '\\b', '\\f', '\\n', '\\r', '\\t', '\\u0041', '\\u00e9', '\\ud83d\\ude00', '\\ud83d', '\\ude00', '\\uD83D\\uDE00', '\\u12', '\\uzzzz', '\\x', '\\', 'a', 'é', '😀', "'", ' ']
     for i in range(800 if tier == 'quick' else 40000):
